@@ -11,6 +11,7 @@ import (
 	"sort"
 	"strconv"
 	"strings"
+	"time"
 
 	"golang.org/x/tools/go/ssa"
 )
@@ -487,7 +488,9 @@ func (ex *Exec) obligation(kind, label string, ob *Term, margin *Term, site ssa.
 		ex.violate(Violation{Kind: kind, Label: label, Pos: pos, Detail: "fails on every input of this path", Solver: r}, m)
 		return
 	}
+	tq := time.Now()
 	r, m := ex.check([]*Term{neg}, ex.wantVars())
+	slow := time.Since(tq) > 1500*time.Millisecond
 	if ex.res.SampleQuery == "" && r == "unsat" {
 		ex.res.SampleQuery = label + ": " + neg.Short()
 	}
@@ -495,8 +498,10 @@ func (ex *Exec) obligation(kind, label string, ob *Term, margin *Term, site ssa.
 	case "unsat":
 		ex.res.Discharged++
 	case "sat":
-		if nm := ex.niceModel(neg, margin); nm != nil {
-			m = nm
+		if !slow { // a margin model is a convenience for replay; not worth a second hard query
+			if nm := ex.niceModel(neg, margin); nm != nil {
+				m = nm
+			}
 		}
 		q := ex.sol.script([]*Term{neg}, nil)
 		ex.violate(Violation{Kind: kind, Label: label, Pos: pos, Detail: "negated obligation: " + neg.Short(), Solver: "z3", Query: q}, m)
@@ -666,6 +671,24 @@ var vrtIntrinsics = map[string]intrinsicFn{
 		ex.obligation("assert", a[0].(string), c, nil, site)
 		if len(ex.res.Violations)+len(ex.res.Undischarged) == before && c != ex.b.True {
 			ex.addPC(c)
+		}
+		return nil
+	},
+	"LemmaEqF": func(ex *Exec, _ *ssa.Function, a []Value, site ssa.Instruction) Value {
+		// prove got == want on this path, then print got as want in every later query (rewrite by a proven equality)
+		tb := ex.b
+		got, want := a[1].(F), a[2].(F)
+		ob := tb.Implies(ex.defTerm(want), tb.And(ex.defTerm(got), tb.Eq(got.T, want.T)))
+		before := len(ex.res.Violations) + len(ex.res.Undischarged)
+		diff := tb.RSub(got.T, want.T)
+		h := tb.RatI(1, 100)
+		margin := tb.Or(tb.Not(ex.defTerm(got)), tb.RLe(h, diff), tb.RLe(diff, tb.RNeg(h)))
+		ex.obligation("eq", a[0].(string), ob, margin, site)
+		if len(ex.res.Violations)+len(ex.res.Undischarged) == before && (want.D == nil || want.D == tb.True) {
+			g, w := ex.sol.resolve(got.T), ex.sol.resolve(want.T)
+			if g != w && !g.isConst() && g.op != "var" && !occurs(g, w, 20000) {
+				ex.sol.alias[g.id] = w
+			}
 		}
 		return nil
 	},
@@ -887,6 +910,29 @@ var vrtIntrinsics = map[string]intrinsicFn{
 		walk(so.f[fieldIdx(st, "data")])
 		return nil
 	},
+}
+
+// occurs reports whether needle is in the cone of t (true also when the budget runs out).
+func occurs(needle, t *Term, budget int) bool {
+	seen := map[int]bool{}
+	stack := []*Term{t}
+	for len(stack) > 0 {
+		x := stack[len(stack)-1]
+		stack = stack[:len(stack)-1]
+		if x == needle {
+			return true
+		}
+		if seen[x.id] {
+			continue
+		}
+		seen[x.id] = true
+		budget--
+		if budget <= 0 {
+			return true
+		}
+		stack = append(stack, x.args...)
+	}
+	return false
 }
 
 func stripIdx(name string) string {
